@@ -204,6 +204,14 @@ func VerifHarness_Step_CreateClass() {
 				denom = fee.Fee.Denom
 			}
 			zzinv.CheckC05FeeBurn(s.Sk.Basket, denom, fee.Fee != nil)
+			if s.Err != nil && !s.Panicked && fee.Fee != nil {
+				feeInt, _ := sdk.NewIntFromString(fee.Fee.Amount)
+				offer, same := zz.QInt(0), false
+				if req.Fee != nil {
+					offer, same = zz.QOf(req.Fee.Amount), zz.StrEq(req.Fee.Denom, fee.Fee.Denom)
+				}
+				zzinv.CheckFeeNeverDisables("CreateClass", s.Err, true, zz.QOf(feeInt), req.Fee != nil, same, offer, zz.BankBal0(s.Signer, fee.Fee.Denom))
+			}
 			if s.Err == nil {
 				var al api.ClassCreatorAllowlist
 				zz.OrmRow0("regen.ecocredit.v1.ClassCreatorAllowlist", &al)
@@ -220,18 +228,22 @@ func VerifHarness_Step_CreateClass() {
 				var c api.Class
 				made := zz.OrmLookup1(zzinv.TClass, "Id", &c, base.FormatClassID(req.CreditTypeAbbrev, n))
 				zz.Assert(zz.And(made, zz.And(zz.StrEq(c.CreditTypeAbbrev, req.CreditTypeAbbrev), zz.BytesEq(c.Admin, s.Signer))), "C14 CreateClass stores the class under the id formatted from the credit type and the next sequence number")
-				// C18: the fee
+				// C18: the fee (a stored fee of zero requires and charges nothing)
 				if fee.Fee != nil {
 					feeInt, _ := sdk.NewIntFromString(fee.Fee.Amount)
 					feeAmt := zz.QOf(feeInt)
+					positive := zz.QLt(zz.QInt(0), feeAmt)
 					zz.Assert(zz.QEq(zz.QSub(zz.BankBal0(s.Signer, fee.Fee.Denom), zz.BankBal1(s.Signer, fee.Fee.Denom)), feeAmt), "C18 a successful CreateClass debits the creator exactly the stored class fee")
 					zz.Assert(zz.QEq(zz.QSub(zz.BankSupply0(fee.Fee.Denom), zz.BankSupply1(fee.Fee.Denom)), feeAmt), "C18 a successful CreateClass burns exactly the stored class fee")
 					mod := zz.ModuleAddr(ecocredit.ModuleName)
 					zz.Assert(zz.QEq(zz.BankBal0(mod, fee.Fee.Denom), zz.BankBal1(mod, fee.Fee.Denom)), "C18 the ecocredit module account keeps nothing of the class fee")
-					zz.Assert(zz.And(req.Fee != nil, zz.StrEq(req.Fee.Denom, fee.Fee.Denom)), "C18 CreateClass succeeds only with an offer in the fee denom")
+					same := false
 					if req.Fee != nil {
-						zz.Assert(zz.QLe(feeAmt, zz.QOf(req.Fee.Amount)), "C18 CreateClass succeeds only if the offer covers the fee")
+						same = zz.StrEq(req.Fee.Denom, fee.Fee.Denom)
+						zz.Assert(zz.Implies(positive, zz.QLe(feeAmt, zz.QOf(req.Fee.Amount))), "C18 CreateClass succeeds only if the offer covers the fee")
 					}
+					zz.Assert(zz.Implies(positive, zz.And(req.Fee != nil, same)), "C18 CreateClass succeeds only with an offer in the fee denom")
+					zz.Assert(zz.Implies(zz.Not(positive), zz.BankCalls() == 0), "C18 with a zero class fee, CreateClass charges nothing")
 				} else {
 					zz.Assert(zz.BankCalls() == 0, "C18 with no class fee set, CreateClass charges nothing")
 				}
